@@ -34,9 +34,24 @@ LINE_POOL = [BEGIN, SIGM, END, ADDR, SIG, "", "hello", "-----BEGIN BITCOIN SIGNA
              SIGM + " ", "tail\r", "\r", "-----BEGIN SIGNED MESSAGE-----", END + "\r"]
 
 
+MULTIBIT = """
+
+-----BEGIN BITCOIN SIGNED MESSAGE-----
+This is an example of a signed message.
+-----BEGIN BITCOIN SIGNATURE-----
+Version: Bitcoin-qt (1.0)
+Address: 1HZwkjkeaoZfTSaJxDw6aKkxp45agDiEzN
+
+HCT1esk/TWlF/o9UNzLDANqsPXntkMErf7erIrjH5IBOZP98cNcmWmnW0GpSAi3wbr6CwpUAN4ctNn1T71UBwSc=
+-----END BITCOIN SIGNATURE-----
+
+"""
+
+
 def _texts(rng, tier):
     quick = tier == "quick"
-    out = []
+    out = [MULTIBIT, MULTIBIT.replace("\n", "\r\n"), MULTIBIT.replace("Address:", "ADDRESS :"), MULTIBIT.replace("Address: ", "Address:\t"),
+           MULTIBIT.replace("Address", "Adress"), MULTIBIT.replace("Version", "Address"), "Username: x\nURL: y\n" + MULTIBIT]
     t = MessageSigner.signature_template
     for msg in ["hello", "", "two\nlines", "a\r\nb", "a\r\nb\nc", "tr\r", "\n", "x\n" + SIGM, SIGM + "\ny", "x\n" + SIGM + "\ny",
                 "x\n" + SIGM + "\n" + SIGM + "\ny", "é€\U0001f600", "Address: foo", "-----END", BEGIN + "\nin\n" + SIGM + "\n" + ADDR + "\n" + SIG + "\n" + END]:
